@@ -419,3 +419,75 @@ func endsInReturnOnly(b *ssa.BasicBlock) bool {
 	}
 	return walk(b)
 }
+
+// ruleFloatRendering (C02): a float is rendered by strconv's float formatter (or the NaN/Inf
+// literals): routing it through an integer conversion (`strconv.AppendInt(dst, int64(v), 10)` as a
+// fast path for integral values) loses the sign of -0 and, beyond 2^53, digits.
+func ruleFloatRendering(r *Run, p *Prog) {
+	n := 0
+	for _, f := range p.RootViews([]string{"internal/json"}, "", nil) {
+		hasFloat := false
+		for _, par := range f.Params {
+			if isFloatType(par.Type()) {
+				hasFloat = true
+			}
+			if sl, ok := par.Type().Underlying().(*types.Slice); ok && isFloatType(sl.Elem()) {
+				hasFloat = true
+			}
+		}
+		if !hasFloat {
+			continue
+		}
+		n++
+		bad := ""
+		var pos token.Pos = f.Pos()
+		eachInstr(f, func(b *ssa.BasicBlock, i int, in ssa.Instruction) {
+			c, ok := in.(*ssa.Call)
+			if !ok {
+				return
+			}
+			name := calleeFull(&c.Call)
+			switch name {
+			case "strconv.AppendInt", "strconv.AppendUint", "strconv.Itoa", "strconv.FormatInt", "strconv.FormatUint":
+			default:
+				return
+			}
+			for _, a := range c.Call.Args {
+				v := a
+				for depth := 0; depth < 4; depth++ {
+					cv, ok := v.(*ssa.Convert)
+					if !ok {
+						break
+					}
+					if isFloatType(cv.X.Type()) {
+						bad = name + "(" + descr(a) + ")"
+						pos = c.Pos()
+					}
+					v = cv.X
+				}
+			}
+		})
+		r.Ob("ELEM", originFnName(f, f.Blocks[0].Instrs[0])+"/float-via-strconv-float", p.Pos(pos), bad == "", true, tern(bad == "", "floats are rendered by the float formatter only", "a float is rendered through an integer conversion ("+bad+"): -0.0 comes out as 0 (and large magnitudes lose digits), so the value read back is not the value logged"))
+	}
+	if n == 0 {
+		r.Fail("ELEM", "float-functions", "-", "no float-rendering function found in internal/json")
+	}
+}
+
+// ruleRawCBORAlphabet (C02): the JSON build renders RawCBOR as a data URL in standard base64.
+func ruleRawCBORAlphabet(r *Run, p *Prog) {
+	f := p.Func("", "appendCBOR")
+	if !r.Anchor(f != nil, "ELEM", "appendCBOR (JSON build)") {
+		return
+	}
+	vars := map[string]bool{}
+	eachInstr(p.View(f, "", nil), func(b *ssa.BasicBlock, i int, in ssa.Instruction) {
+		for _, op := range in.Operands(nil) {
+			if gl, ok := (*op).(*ssa.Global); ok && gl.Pkg != nil && gl.Pkg.Pkg.Path() == "encoding/base64" {
+				vars[gl.Name()] = true
+			}
+		}
+	})
+	ok := len(vars) == 1 && vars["StdEncoding"]
+	r.Ob("ELEM", "appendCBOR/base64-alphabet", p.Pos(f.Pos()), ok, true, tern(ok, "RawCBOR is rendered with base64.StdEncoding (the documented data:application/cbor;base64 form)", fmt.Sprintf("RawCBOR is rendered with base64.%v instead of the standard alphabet: the documented text form does not decode back to the logged bytes", keysOf(vars))))
+}
